@@ -521,14 +521,6 @@ func (e *Engine) runPath(entry *ssa.Function, solver *smt.Solver, item workItem)
 	if e.Cfg.Trace {
 		i.mode |= EnableTracing
 	}
-	for _, pkg := range e.prog.AllPackages() {
-		for _, m := range pkg.Members {
-			if g, ok := m.(*ssa.Global); ok {
-				cell := zero(mustDeref(g.Type()))
-				i.globals[g] = &cell
-			}
-		}
-	}
 	func() {
 		defer func() {
 			r := recover()
